@@ -261,7 +261,7 @@ func render(t *rapid.T, b []byte, label string) string {
 	return s
 }
 
-var nonHexKinds = []string{"tail-after-full-length", "tail-after-full-length", "odd-length", "rune-g", "rune-space", "rune-dash", "rune-multibyte", "rune-nul", "0x0x-prefix", "leading-space", "trailing-newline", "0x-odd", "x-only-prefix"}
+var nonHexKinds = []string{"tail-after-full-length", "tail-after-full-length", "embedded-0x-inserted", "embedded-0x-replacing", "odd-length", "rune-g", "rune-space", "rune-dash", "rune-multibyte", "rune-nul", "0x0x-prefix", "leading-space", "trailing-newline", "0x-odd", "x-only-prefix"}
 
 // spoil turns a well-formed rendering into a non-hex string by one named edit.
 func spoil(t *rapid.T, s string, label string) (string, string) {
@@ -281,6 +281,23 @@ func spoil(t *rapid.T, s string, label string) (string, string) {
 		extra := strings.Repeat("0123456789abcdefABCDEF", 2)[:2*rapid.IntRange(1, 20).Draw(t, label+"Extra")]
 		junk := rapid.SampledFrom([]string{"zz", "g", "\n ", "0g", " ", "-", "é"}).Draw(t, label+"Junk")
 		return s + extra + junk, kind
+	case "embedded-0x-inserted":
+		// the characters "0x" appear again INSIDE the string (not as its prefix)
+		at := 1 + pos
+		if at > len(body) {
+			at = len(body)
+		}
+		return pre + body[:at] + "0x" + body[at:], kind
+	case "embedded-0x-replacing":
+		// two hex digits are overwritten by "0x" (length unchanged)
+		at := pos
+		if at+2 > len(body) {
+			at = len(body) - 2
+		}
+		if at < 1 && pre == "" {
+			at = 1 // at position 0 without a prefix it would BE a prefix
+		}
+		return pre + body[:at] + "0x" + body[at+2:], kind
 	case "odd-length":
 		return pre + body[:len(body)-1], kind
 	case "rune-g":
@@ -402,6 +419,17 @@ func TestWrappers(t *testing.T) {
 				}
 			case "other-key":
 				pk = xk[rapid.IntRange(0, len(xk)-1).Draw(rt, "key2")].pk
+			}
+			if rapid.IntRange(0, 5).Draw(rt, "uninterpreted") == 0 {
+				// descriptor bits the core verifier does not interpret (address-format nibble, reserved byte):
+				// whatever the core answers for such a key, the wrapper must answer the same
+				pk = append([]byte{}, pk...)
+				if rapid.Bool().Draw(rt, "afNibble") {
+					pk[1] |= byte(rapid.IntRange(1, 15).Draw(rt, "af")) << 4
+				} else {
+					pk[2] = byte(rapid.IntRange(1, 255).Draw(rt, "reserved"))
+				}
+				validity += "+uninterpreted-descriptor-bits"
 			}
 			if rapid.IntRange(0, 9).Draw(rt, "coreRefuses") == 0 {
 				pk = append([]byte{}, pk...)
